@@ -832,7 +832,7 @@ theorem zip_rebuild : ∀ (B : List Shape) (D : List (Oid × Name)) (R : List (O
       refine ⟨?_, ih ds _ a h3 rfl⟩
       cases b
       simp_all
-      split <;> simp
+      split <;> simp_all
 
 theorem classOf_lt {w : PWorld} {t : Oid} {c : PClass} (h : classOf w t = some c) : t < w.objs.length := by
   unfold classOf at h
@@ -899,7 +899,9 @@ theorem rebuild (w : PWorld) (t : Oid) (m : Name) (s : PathSpec) (attrib : Optio
   refine ⟨w', ?_, hg1.trans h2, ?_, ?_⟩
   · unfold updateDeps
     rw [hct]
-    simp only [hm, updateEntries, updateEntry, hfilter]
+    simp only [hm, updateEntries, updateEntry]
+    have hf2 : ∀ (f : PathSpec → Bool), f s = true → [s].filter f = [s] := by intro f h; simp [h]
+    rw [hf2 _ (by rcases hattr with rfl | rfl <;> simp)]
     simp only [List.isEmpty_cons, Bool.and_false, Bool.false_eq_true, if_false]
     rw [hw1, hgroups]
     simp only [h1]
@@ -908,22 +910,27 @@ theorem rebuild (w : PWorld) (t : Oid) (m : Name) (s : PathSpec) (attrib : Optio
     refine ⟨?_, ?_, ?_, h6⟩
     · rw [h4, m1, built_congr h2]
       -- position by position: holder/parameter from the walk, filter/callback from `rdd_gen`
-      unfold built depsRoot at *
       obtain ⟨n0, rest0, hpe⟩ := List.exists_cons_of_ne_nil hs.path
-      simp only [hpe] at *
+      have hbuilt : built w1 t s = (match getParam w1 t n0 with
+          | some (.ref _) => builtFrom w1 t 0 s.path s.leaf | _ => []) := by
+        simp only [built, hpe]
+      have hroot' : depsRoot w1 t s.path s.leaf = (match getParam w1 t n0 with
+          | some (.ref _) => depsFrom w1 t s.path s.leaf | _ => []) := by
+        simp only [depsRoot, hpe]
+      rw [hbuilt]
+      simp only [res, hroot']
       cases hroot : getParam w1 t n0 with
-      | none => simp [res, depsRoot, hpe, hroot]
+      | none => simp
       | some v =>
         cases v with
-        | none => simp [res, depsRoot, hpe, hroot]
-        | int i => simp [res, depsRoot, hpe, hroot]
+        | none => simp
+        | int i => simp
         | ref o1 =>
-          simp only [res, depsRoot, hpe, hroot]
+          simp only
           apply zip_rebuild _ _ _ attrib
-          · exact (builtFrom_deps w1 (n0 :: rest0) t 0 s.leaf).symm
-          · have := rdd_gen w1 attrib s.leaf (n0 :: rest0) [] [] t rfl (by simp) (by rw [← hpe]; exact hsimple1)
+          · exact (builtFrom_deps w1 s.path t 0 s.leaf).symm
+          · have := rdd_gen w1 attrib s.leaf s.path [] [] t rfl (by simp) hsimple1
             simp only [List.nil_append, List.length_nil] at this
-            simp only [PathSpec.elems, hpe]
             exact this
     · intro x hx
       rw [h4] at hx
